@@ -263,9 +263,9 @@ Section Makes.
     destruct (handle_timeout c me hint t s2) as [[s3 o3] r3]. exact T.
   Qed.
 
-  Lemma mkeeps_commit_walk lcr : forall fuel parent acc, mkeeps (commit_walk fuel lcr parent acc).
+  Lemma mkeeps_commit_walk lcr : forall fuel parent acc, mkeeps (commit_walk src_dq fuel lcr parent acc).
   Proof.
-    induction fuel as [|f IH]; intros parent acc; simpl; [apply mkeeps_panic|]. gunf.
+    induction fuel as [|f IH]; intros parent acc; simpl; [apply mkeeps_panic|]. gunfdq.
     destruct (_ <? _); [|apply mkeeps_ret].
     apply mkeeps_bind; [apply mkeeps_get_parent_block|]. intros [anc|]; [|apply mkeeps_panic].
     destruct (_ <=? _); [apply mkeeps_ret|apply IH].
@@ -276,9 +276,9 @@ Section Makes.
     apply mkeeps_bind; [apply mkeeps_emit|]. intros _.
     apply mkeeps_bind; [apply mkeeps_modify; intros; reflexivity|]. intros _. exact IH.
   Qed.
-  Lemma mkeeps_commit b : mkeeps (commit true b).
+  Lemma mkeeps_commit b : mkeeps (commit src_dq b).
   Proof.
-    unfold commit. gunf. apply mkeeps_bind; [apply mkeeps_get|]. intros s.
+    unfold commit. gunfdq. apply mkeeps_bind; [apply mkeeps_get|]. intros s.
     destruct (_ <=? _); [apply mkeeps_ret|].
     apply mkeeps_bind; [apply mkeeps_commit_walk|]. intros anc.
     apply mkeeps_bind; [apply mkeeps_modify; intros; reflexivity|]. intros _. apply mkeeps_deliver_all.
@@ -291,7 +291,7 @@ Section Makes.
   Qed.
 
   Lemma process_block_mk hint b s :
-    Inv s -> MkInv s -> vetted s b -> MkInv (st (process_block c me true hint b s)).
+    Inv s -> MkInv s -> vetted s b -> MkInv (st (process_block c me src_dq hint b s)).
   Proof.
     intros H HM Hv.
     (* everything up to the vote keeps the list and only moves the round forward *)
@@ -348,7 +348,7 @@ Section Makes.
         - destruct G0 as [G0|G0]; [left; exact G0|right; rewrite W5, St4; right; exact G0].
         - lia. }
       pose proof ($commit_inv b0 s5 I5 Hv05 Hd) as Kc. pose proof (mkeeps_commit b0 s5) as K6.
-      destruct (commit true b0 s5) as [[s6 o6] r6]. unfold st in K6; simpl in K6. destruct Kc as [I6 [L6 _]].
+      destruct (commit src_dq b0 s5) as [[s6 o6] r6]. unfold st in K6; simpl in K6. destruct Kc as [I6 [L6 _]].
       split; [exact I6|]. split; [exact (sle_tr _ _ _ L5 L6)|]. eapply MkInv_keep; eauto. apply L6. }
     unfold bind at 1.
     destruct (cm s4) as [[s7 o7] r7]. destruct C as [I7 [L7 M7]].
@@ -373,7 +373,7 @@ Section Makes.
 
   Lemma handle_proposal_mk hint b s :
     Inv s -> MkInv s -> block_sound c me honest w0 s b ->
-    MkInv (st (handle_proposal c me true hint b s)).
+    MkInv (st (handle_proposal c me src_dq hint b s)).
   Proof.
     intros H HM [Hq Ht]. unfold handle_proposal. unfold bind at 1.
     destruct (b_author b =? leader c (b_round b)); [|exact HM].
@@ -414,13 +414,13 @@ Section Makes.
     destruct ok; [|exact M3].
     assert (Hv3 : vetted s3 b) by (eapply ($vetted_sle); eauto).
     pose proof (process_block_mk hint b s3 I3 M3 Hv3) as B.
-    destruct (process_block c me true hint b s3) as [[s4 o4] r4]. exact B.
+    destruct (process_block c me src_dq hint b s3) as [[s4 o4] r4]. exact B.
   Qed.
 
   (* booting twice would request a second proposal for the current round: the main loop boots once *)
   Theorem step_mk hint e s :
     Inv s -> MkInv s -> ev_adm c me honest w0 s e -> (e = EvBoot -> s_makes s = []) ->
-    MkInv (st (step c me true hint e s)).
+    MkInv (st (step c me src_dq hint e s)).
   Proof.
     intros H HM Ha Hb. destruct e as [b|v|t|tc|b| |d|d| ]; simpl in *.
     - apply handle_proposal_mk; auto.
@@ -439,7 +439,7 @@ Section Makes.
         intros y Hy. left. unfold in_flight in *. simpl in *. destruct Hy as [Hy|Hy]; auto. }
       assert (L1 : sle s s1) by (split; [exists []; reflexivity|simpl; lia]).
       pose proof (process_block_mk hint x s1 I1 HM (($vetted_sle) _ _ _ Hvx L1)) as B.
-      destruct (process_block c me true hint x s1) as [[s2 o2] r2]. exact B.
+      destruct (process_block c me src_dq hint x s1) as [[s2 o2] r2]. exact B.
     - apply local_timeout_mk; auto.
     - exact HM.
     - unfold modify, st. destruct (memN d (s_buffer s)); exact HM.
